@@ -278,11 +278,12 @@ func (n *Nodis) SMove(source, destination, member string) bool {
 		if !meta.isOk() {
 			return nil
 		}
+		src := meta.value.(*set.Set)
 		if dst := tx.writeKey(destination, nil); dst.isOk() {
 			// a destination of another type fails the command before the member leaves the source
 			_ = dst.value.(*set.Set)
 		}
-		m := meta.value.(*set.Set).SRem(member)
+		m := src.SRem(member)
 		if m == 0 {
 			return nil
 		}
